@@ -43,7 +43,25 @@ def _size(tree, cls):
     return sum(f.width for f in schema.fields_desc(tree, MSGS, cls) if f.width is not None and f.cond is None)
 
 
+def _hints_unbounded(tree, ob):
+    ''' the header length covers hints + message; the hint list is read as long as the chain flag says so.  A bound on the
+    number of list items (max_count) makes scapy stop early: the rest of the hints is taken for the message, which then
+    decodes to Raw and is dropped by the receiver. '''
+    cls = tree.klass(MSGS, 'MessageHead')
+    found = 0
+    for c in [x for x in ast.walk(cls) if isinstance(x, ast.Call) and (call_name(x) or '').split('.')[-1] == 'PacketListField' and x.args and const_str(x.args[0]) == 'hints']:
+        found += 1
+        extra = [k.arg for k in c.keywords if k.arg in ('max_count', 'count_from', 'length_from')]
+        if extra:
+            ob.violate(MSGS, 'MessageHead', 'PacketListField(hints, {}=...)'.format(extra[0]), 'the hint list is cut by something other than its own chain flag ({}): a header with more hints than that '
+                       'is mis-framed, its message decodes to Raw and the segment (and so the transfer) is lost'.format(extra[0]), c, sure=True)
+        else:
+            ob.site(MSGS, c, 'hint list is read by its chain flag only')
+    ob.require(found >= 1, 'hints field of MessageHead')
+
+
 def c20a(tree, ob):
+    _hints_unbounded(tree, ob)
     binds = {kws.get('msg_type'): up for (lo, up, kws, node) in schema.bindings(tree, MSGS) if lo == 'MessageHead'}
     want = {1: 'DefinitePadding', 2: 'BundlePdu', 3: 'TransferSeg', 4: 'TransferEnd', 5: 'TransferCancel'}
     if binds != want:
